@@ -267,4 +267,13 @@ def shiftRight (dflt : α) (a : List α) (f l : Nat) (n : Int) : Except Err (Lis
     let (a, _) ← fillLoop f dest dflt (dest - f) a f
     .ok (a, dest)
 
+/-- shift_right for a value type that is NOT default constructible (the `if constexpr` else-branch of shift_right.hpp):
+    no clean-up loop, the vacated slots `[first, first+n)` keep their moved-from values -/
+def shiftRightNoFill (a : List α) (f l : Nat) (n : Int) : Except Err (List α × Nat) :=
+  if n ≤ 0 then .ok (a, f)
+  else if n ≥ ((l - f : Nat) : Int) then .ok (a, l)
+  else do
+    let (a, dest) ← copyBackwardLoop f (l - n.toNat) (f + n.toNat) l (l - f - n.toNat) a (l - n.toNat) l
+    .ok (a, dest)
+
 end Tetl.C06
